@@ -25,6 +25,12 @@ def free_port():
 
 
 def client_stream(rng, kind):
+    if kind == "slowserver":
+        # several hundred kilobytes: more than the socket buffers between the proxy and a server that is not reading
+        out = b""
+        while len(out) < 600000:
+            out += pygen.frame(pygen.payload(rng, rng.choice([1005, 1230] + pygen.MSM), rng.randint(100, 900)))
+        return out
     if kind == "bigburst":
         # far more than any internal buffer, no pauses: the relay may run ahead of the parser, the report must still be truthful
         out = b""
@@ -80,7 +86,8 @@ def session(ctx, binary, n, rng, kind, cert=None):
        tls13      an ordinary session through the TLS proxy (TLS 1.3)
        second     after an ordinary session the client leaves and a second client uses the same proxy process
        quiet      the proxy is started with -q (message log off)
-       loglevel0  the message log is turned off through /status/loglevel/0 before the traffic starts"""
+       loglevel0  the message log is turned off through /status/loglevel/0 before the traffic starts
+       slowserver the upstream server reads nothing for 2 s while the client sends 600 kB"""
     d = ctx.path("sess%d" % n)
     os.makedirs(d)
     tls = kind.startswith("tls")
@@ -151,7 +158,7 @@ def session(ctx, binary, n, rng, kind, cert=None):
         def pump(sock, data, seed):
             r = random.Random(seed)
             i = 0
-            if kind in ("bulk", "burst", "bigburst") and sock is cli:
+            if kind in ("bulk", "burst", "bigburst", "slowserver") and sock is cli:
                 try:
                     sock.sendall(data)      # all at once: the proxy's reads fill its buffer
                 except OSError:
@@ -168,6 +175,8 @@ def session(ctx, binary, n, rng, kind, cert=None):
                     time.sleep(r.random() * 0.003)
 
         def drain(sock, buf, want, stop):
+            if skind == "slowserver" and sock is srv:
+                time.sleep(2.0)       # the server is busy: the proxy's writes to it block, nothing may be dropped meanwhile
             while not stop.is_set() and len(buf) < want:
                 try:
                     b = sock.recv(65536)
@@ -494,8 +503,8 @@ def run(ctx, replay):
     binary = build_binary(ctx, "proxy")
     rng = random.Random(ctx.seed * 104729 + 19)
     kinds = ["valid", "malformed", "html", "random", "mixed", "many", "bulk", "burst", "bigburst", "bulk", "mixed", "html", "burst",
-             "close", "tls12close", "tls13", "tls12close", "close", "second", "quiet", "loglevel0"]
-    nsess = 105 if ctx.thorough() else 21
+             "close", "tls12close", "tls13", "tls12close", "close", "second", "quiet", "loglevel0", "slowserver"]
+    nsess = 110 if ctx.thorough() else 22
     cert = ctx.path("upstream")
     ctx.drive(ctx.build_harness(), ["gencert", cert])
     events = []
